@@ -53,6 +53,8 @@ def c06(ctx):
              "path, and no site re-evaluates the same child in a loop; the re-evaluations by design are a reviewed table (loop "
              "condition and body, read-then-write of a compound assignment's destination, the drill-down over nested subscripts). "
              "A target addressed twice (read here, written there) lets a side-effecting subscript select two different slots")
+    from .c06_index import index_rule
+    index_rule(ctx, "C06.R12")
     rep.rule("C06.R11", "a key of kind k addresses the slot of kind k, for reads and writes alike: KIND computes Array::index and "
              "Array::index_or_insert for every kind of key with the slot accessors left opaque -- mysterious / null / a boolean / a string go "
              "to the dictionary under the key of that same kind (and payload), a number to the sequence at that number, an array is an "
@@ -290,6 +292,8 @@ def key_slot_rule(ctx, rule):
                     got.add(t)
             if v["name"] == "Number":
                 got.discard("Err(InvalidKey)")      # a write beyond what can be allocated (D5 repair) -- the read has no such case
+                # a number that is not an index (negative, fractional: D15) may be answered "missing" without touching a slot
+                got = {g for g in got if not (g.startswith("Ok(") and "index_" not in g and g.rstrip(")").endswith("U"))}
             n += 1
             ok = got == {want.get(v["name"], "?")} and not I.incomplete
             rep.ob(rule, "key-slot::%s::%s" % (name, v["name"]), ok,
